@@ -344,6 +344,10 @@ func init() {
 		_, _, n, err, _ := e.readN(st, ref, want, 1)
 		return one(st, n, err)
 	}
+	models["(*bufio.Reader).ReadByte"] = func(e *Exec, st *State, fr *Frame, fn *ssa.Function, args []Value, pos token.Pos) []Outcome {
+		src, soff, _, err, ok := e.readN(st, streamRef(args[0]), BVConst(1, 64), 1)
+		return one(st, Ite(ok, Select(src, soff), BVConst(0, 8)), err)
+	}
 	models["(*bufio.Reader).Read"] = func(e *Exec, st *State, fr *Frame, fn *ssa.Function, args []Value, pos token.Pos) []Outcome {
 		recv := &IfaceV{Tid: IntConst(1), Ref: streamRef(args[0])}
 		// a request at least as large as the reader's buffer is passed straight to the underlying reader, whose byte
@@ -359,6 +363,9 @@ func init() {
 		fail := BVUlt(w.limit, w.n)
 		werr := &IfaceV{Tid: w.errT, Ref: w.errR}
 		e.ioerrRecord(st, fail, werr)
+		// ghost "flushed": how many of the bytes written are KNOWN to have been handed to the transport: only a
+		// successful Flush says so (a buffered writer may or may not pass bytes on earlier)
+		e.ghSet(st, "wr.flushed", BV(64), ref, Ite(fail, e.ghGet(st, "wr.flushed", BV(64), ref), w.n))
 		return one(st, &IfaceV{Tid: Ite(fail, werr.Tid, IntConst(0)), Ref: Ite(fail, werr.Ref, IntConst(0))})
 	}
 }
@@ -396,6 +403,8 @@ func (e *Exec) ghostPrimitive(st *State, fr *Frame, fn *ssa.Function, args []Val
 		return one(st, &IfaceV{Tid: r.errT, Ref: r.errR}), true
 	case "ghost_wr_len":
 		return one(st, e.wrF(s, e.wrFamily(args[0]), streamRef(args[0])).n), true
+	case "ghost_wr_flushed":
+		return one(st, e.ghGet(s, e.wrFamily(args[0])+".flushed", BV(64), streamRef(args[0]))), true
 	case "ghost_wr_limit":
 		return one(st, e.wr(s, streamRef(args[0])).limit), true
 	case "ghost_wr_at":
@@ -426,6 +435,19 @@ func (e *Exec) ghostPrimitive(st *State, fr *Frame, fn *ssa.Function, args []Val
 			panic(unsupported("ghost_calls needs a constant callee name"))
 		}
 		return one(st, e.ghGet(s, "calls."+*name.Const, BV(64), IntConst(0))), true
+	}
+	if strings.HasPrefix(name, "ghost_last_") { // first result (a pointer) of the latest counted call of that callee
+		pt, ok := fn.Signature.Results().At(0).Type().Underlying().(*types.Pointer)
+		if !ok {
+			panic(unsupported(name + " must return a pointer"))
+		}
+		return one(st, termToPtr(e.ghGet(s, "calls.last."+strings.TrimPrefix(name, "ghost_last_"), SInt, IntConst(0)), pt.Elem())), true
+	}
+	if strings.HasPrefix(name, "ghost_lastv_") { // first result (an integer) of the latest counted call of that callee
+		rs := scalarSort(fn.Signature.Results().At(0).Type())
+		return one(st, e.ghGet(s, fmt.Sprintf("calls.lastv%d.%s", rs.Width(), strings.TrimPrefix(name, "ghost_lastv_")), rs, IntConst(0))), true
+	}
+	switch name {
 	case "ghost_lastcid":
 		return one(st, e.ghGet(s, "lastatomic", BV(64), IntConst(0))), true
 	case "ghost_ioerr":
